@@ -266,6 +266,6 @@ def einsum(*operands, dtype=None, optimize=False, split_every=None, **kwargs):
     # Now reduce over any extra contraction dimensions
     if ncontract_inds > 0:
         size = len(outputs)
-        return result.sum(axis=list(range(size, size + ncontract_inds)), split_every=split_every)
+        return result.sum(axis=list(range(size, size + ncontract_inds)), dtype=dtype, split_every=split_every)
 
     return result
